@@ -339,6 +339,12 @@ TABLE: dict[str, list[tuple]] = {
         ("and only then", "ret", "", "", ("False",), [], [], ""),
     ],
     "LogicBlockHolder._check_merge_is_correct": [
+        ("the predecessor sets of the merge node are consulted only when "
+         "every arriving path ends in an event (a path that arrives on an "
+         "operator has no type to look for)", "bind",
+         "has_event_set_as_subset#0", "",
+         ("P:potential_merge_node.eventsets_incoming",),
+         [ANDOR, ("cmp", "None", "In", PT, "0")], [], ""),
         ("XOR blocks merge wherever their paths meet", "ret", "", "",
          ("True",), [XOR], [], ""),
         ("AND / OR: accepted when a predecessor set of the merge node "
@@ -434,6 +440,13 @@ PUML_TABLE: dict[str, list[tuple]] = {
          (_NEWEV,), [], [], ""),
         ("it is added to the graph", "call", "add_puml_node", "P:self",
          (_NEWEV,), [], [], ""),
+        ("no types given means NORMAL", "bind", "PUMLEventNode#2", "",
+         ("(PUMLEvent.NORMAL)",), [("truth", "P:event_types", "0")], [], ""),
+        ("a single type given bare becomes a one-element tuple (types are "
+         "tested with `in`)", "bind", "PUMLEventNode#2", "",
+         ("(phi((PUMLEvent.NORMAL)|P:event_types))",),
+         [("truth", "isinstance(phi((PUMLEvent.NORMAL)|P:event_types),"
+           "PUMLEvent)", "1")], [], ""),
         ("the occurrence number is used up", "call",
          "increment_occurrence_count", "P:self", ("P:event_name",), [], [],
          ""),
@@ -447,6 +460,15 @@ PUML_TABLE: dict[str, list[tuple]] = {
          ("P:parent_graph_node", _NEWEV),
          [("cmp", "P:parent_graph_node", "Is", "None", "0")],
          [("cmp", "P:sub_graph", "Is", "None", "1")], ""),
+    ],
+    "PUMLGraph.add_parent_graph_node_to_node_ref": [
+        ("the first diagram node of a model node opens its list", "store",
+         "", "P:self.parent_graph_nodes_to_node_ref[P:parent_graph_node]",
+         ("[]",), [("cmp", "P:parent_graph_node", "In",
+                    "P:self.parent_graph_nodes_to_node_ref", "0")], [], ""),
+        ("every diagram node of a model node is listed under it", "call",
+         "append", "P:self.parent_graph_nodes_to_node_ref["
+         "P:parent_graph_node]", ("P:node_ref",), [], [], ""),
     ],
     "PUMLEventNode.__init__": [
         ("the body of a loop node is kept", "store", "", "P:self.sub_graph",
@@ -938,6 +960,18 @@ INGEST_TABLE: dict[str, list[tuple]] = {
          ""),
         ("and becomes an event of the job", "call", "add_event",
          "P:graph_solution", (_DS,), [], [], ""),
+    ],
+    "get_event_set_counts": [
+        ("the first count seen for an event type opens its set", "store", "",
+         "{}[each(each(P:event_sets).items())[0]]",
+         ("{each(each(P:event_sets).items())[1]}",),
+         [("cmp", "each(each(P:event_sets).items())[0]", "In", "{}", "0")],
+         [], ""),
+        ("every further count is added to it", "call", "add",
+         "{}[each(each(P:event_sets).items())[0]]",
+         ("each(each(P:event_sets).items())[1]",),
+         [("cmp", "each(each(P:event_sets).items())[0]", "In", "{}", "1")],
+         [], ""),
     ],
     "create_graph_from_events": [
         ("an edge from every event to every event type that occurs in one "
